@@ -37,7 +37,7 @@ Preds == << [model |-> MA, tags |-> TRUE, store |-> TRUE],
 
 OpsFull == {
   [op |-> "up_raw", s |-> <<97, 98>>], [op |-> "up_raw", s |-> <<97, 12354, 98>>], [op |-> "up_raw", s |-> <<>>],
-  [op |-> "up_raw", s |-> <<97, 0>>],
+  [op |-> "up_raw", s |-> <<97, 0>>], [op |-> "up_raw", s |-> <<97, 98, 97, 98, 97>>],   \* "ababa": 5 bytes like "aあb"
   [op |-> "up_tok", s |-> <<97, 47, 88, 32, 98, 47, 89>>], [op |-> "up_tok", s |-> <<97, 98>>],
   [op |-> "up_tok", s |-> <<97, 92, 32, 98>>], [op |-> "up_tok", s |-> <<32, 97>>],
   [op |-> "up_part", s |-> <<97, 124, 98, 45, 99, 32, 100>>], [op |-> "up_part", s |-> <<97, 47, 88, 124, 98, 47, 89, 47, 90>>],
